@@ -2,8 +2,8 @@
  * License, v. 2.0. If a copy of the MPL was not distributed with this
  * file, You can obtain one at http://mozilla.org/MPL/2.0/. */
 use super::{
-    Declaration, EnumDef, Error, FuncDef, FuncResolutionKind, InterfaceArguments, InterfaceDef,
-    Polytype, PolytypeDeclaration, StaticsContext, StructDef,
+    Declaration, DefaultArgState, EnumDef, Error, FuncDef, FuncResolutionKind, InterfaceArguments,
+    InterfaceDef, Polytype, PolytypeDeclaration, StaticsContext, StructDef,
 };
 use crate::ast::{
     ArgMaybeAnnotated, AssignOperator, AstNode, Expr, ExprKind, FileAst, FuncCallArg, Identifier,
@@ -3736,7 +3736,29 @@ fn generate_constraints_expr_funcap_helper(
 ) {
     if let Some(PotentialType::Function(_, func_ty_args, _)) = ty_func.single() {
         args.iter().zip(func_ty_args).for_each(|(arg, expected)| {
-            generate_constraints_expr(ctx, polyvar_scope, Mode::ana(expected), arg);
+            match ctx.default_arg_values.get(&arg.id).copied() {
+                None => {
+                    generate_constraints_expr(ctx, polyvar_scope, Mode::ana(expected), arg);
+                }
+                Some(DefaultArgState::NotBeingChecked) => {
+                    ctx.default_arg_values
+                        .insert(arg.id, DefaultArgState::BeingChecked);
+                    generate_constraints_expr(ctx, polyvar_scope, Mode::ana(expected), arg);
+                    if ctx.default_arg_values[&arg.id] == DefaultArgState::BeingChecked {
+                        ctx.default_arg_values
+                            .insert(arg.id, DefaultArgState::NotBeingChecked);
+                    }
+                }
+                Some(DefaultArgState::BeingChecked) => {
+                    ctx.default_arg_values
+                        .insert(arg.id, DefaultArgState::NeedsItself);
+                    ctx.errors.push(Error::GenericWithNode {
+                        msg: "This default value needs itself: it leaves off the argument it is the default for".to_string(),
+                        node: arg.node(),
+                    });
+                }
+                Some(DefaultArgState::NeedsItself) => {}
+            }
         });
     }
 
